@@ -1,13 +1,13 @@
 /-
 Driver/C20.lean — line-protocol driver for C20 (activate / deactivate / activate_context event sequences).
 in : {"case": n, "env": Env, "events": [Event]}
-out: {"case": n, "trace": [{"outcome", "mods", "config", "cur", "fn": [[engine, functions-attr|null, canonFn]]}],
+out: {"case": n, "trace": [{"outcome", "mods", "config", "caller", "cur", "fn": [[engine, functions-attr|null, canonFn]]}],
       "spec": [{"want", "active", "mocked", "config", "meets", "stateMeets"}], "scope": [violated hypotheses]}
      or, for {"tables": true}: the generated tables as the model reads them
 Pure function of its input lines.
 -/
 import SqlframeModel.Codec.C20
-open Lean Sqlframe.C20 Sqlframe.Gen.Act
+open Lean Sqlframe.C20 Sqlframe.Gen.Act Sqlframe.Gen.ActS
 
 structure Case where
   case : Nat
@@ -20,6 +20,7 @@ def stateJson (o : Outcome) (st : State) : Json :=
     ("outcome", toJson o),
     ("mods", toJson st.mods),
     ("config", toJson st.config),
+    ("caller", toJson st.caller),
     ("cur", toJson st.cur),
     ("ctx", toJson st.ctx),
     ("fn", toJson (st.pkgs.map (fun p => (p.1, aget p.2.dyn "functions", p.2.canonFn))))]
@@ -35,6 +36,12 @@ def tables : Json :=
     ("static", toJson ((akeys engineToPrefix).map (fun e => (e, (staticAttrs e).map (·.1))))),
     ("selected", toJson ((engineToPrefix).map (fun ep => (ep.1, ((staticAttrs ep.1).filter (fun kv => isSelected ep.2 kv.1)).map
         (fun kv => (kv.1, unprefixed ep.2 kv.1, fileFor (unprefixed ep.2 kv.1))))))),
+    ("session", Json.mkObj [
+        ("connKey", toJson builderConnKey), ("dialectKey", toJson builderDialectKey),
+        ("defaultDialect", toJson defaultInputDialect), ("duckBuilderCaches", toJson duckBuilderCaches),
+        ("singletonInNew", toJson singletonInNew), ("activateConnKey", toJson connKey),
+        ("duckInit", toJson (duckInit.map (fun s => (repr s).pretty))),
+        ("cfgStmts", toJson (cfgStmts.map (fun s => (repr s).pretty)))]),
     ("documented", toJson documentedImports),
     ("docKeys", toJson docKeys),
     ("expected", toJson ((akeys engineToPrefix).map (fun e => (e, documentedImports.map (expectedImport e)))))]
